@@ -141,6 +141,9 @@ type Blocks struct {
 	Log     *EffectLog
 	Missing map[string]bool // hashes whose fetch fails (fault injection)
 	Reads   int
+	// Hang lists hashes whose fetch never completes (unreachable provider): Read
+	// blocks until its context ends, as a real bitswap request does.
+	Hang map[string]bool
 	// OnRead, if set, is called at the start of every Read with the running read count (fault injection).
 	OnRead func(n int, hash string)
 	// Peers are block stores of connected peers: a block missing locally is
@@ -160,7 +163,7 @@ func (b *Blocks) Keys() []string {
 }
 
 func NewBlocks(log *EffectLog) *Blocks {
-	return &Blocks{objs: map[string]interface{}{}, Log: log, Missing: map[string]bool{}}
+	return &Blocks{objs: map[string]interface{}{}, Log: log, Missing: map[string]bool{}, Hang: map[string]bool{}}
 }
 
 func (b *Blocks) Has(c cid.Cid) bool {
@@ -289,6 +292,13 @@ func (io *IO) Read(ctx context.Context, ipfs coreiface.CoreAPI, c cid.Cid) (form
 	io.B.mu.Unlock()
 	if hook != nil {
 		hook(nread, c.String())
+	}
+	io.B.mu.Lock()
+	hang := io.B.Hang[c.String()]
+	io.B.mu.Unlock()
+	if hang {
+		<-ctx.Done()
+		return nil, ctx.Err()
 	}
 	io.B.mu.Lock()
 	obj, ok := io.B.objs[c.String()]
